@@ -138,7 +138,10 @@ def exec_lines(kind, chunk, env):
     for f in (fin, fout):
         if os.path.exists(f):
             os.remove(f)
-    return p.returncode, out, (p.stdout + p.stderr)[-3000:]
+    txt = p.stdout + p.stderr
+    # a crashed test binary prints pages of goroutine stacks: keep the lines that say why it died first
+    key = [l.strip() for l in txt.split("\n") if re.match(r"\s*(fatal error: |panic: |WARNING: DATA RACE|--- FAIL)", l)]
+    return p.returncode, out, ("; ".join(dict.fromkeys(key))[:400] + "\n" if key else "") + txt[-3000:]
 
 
 def run_go(kind, lines, watchdog_ms=None, extra_env=None):
@@ -401,6 +404,10 @@ def do_replay(path):
         print(msg)
         return 2
     lake_build(["vfmodel"])
+    from props import PROPS  # cases of runner kinds are replayed by their verif-tagged test
+    for c in PROPS.get(d.get("property"), {}).get("corr", []):
+        if "runner" in c:
+            RUNNERS[c["kind"]] = c["runner"]
     lines = d["session"]
     go = run_go(d["kind"], lines)
     model = run_model(lines)
